@@ -4788,6 +4788,7 @@ class _WebsocketWrapper:
         self._readbuffer = bytearray()
 
         self._requested_size = 0
+        self._data_pending = False
         self._payload_head = 0
         self._readbuffer_head = 0
 
@@ -5011,14 +5012,12 @@ class _WebsocketWrapper:
 
                 # respond to non-binary opcodes, their arrival is not guaranteed because of non-blocking sockets
                 if opcode == _WebsocketWrapper.OPCODE_CONNCLOSE:
-                    frame = self._create_frame(
-                        _WebsocketWrapper.OPCODE_CONNCLOSE, payload, 0)
-                    self._socket.send(frame)
+                    self._send_control_frame(
+                        _WebsocketWrapper.OPCODE_CONNCLOSE, payload)
 
                 if opcode == _WebsocketWrapper.OPCODE_PING:
-                    frame = self._create_frame(
-                        _WebsocketWrapper.OPCODE_PONG, payload, 0)
-                    self._socket.send(frame)
+                    self._send_control_frame(
+                        _WebsocketWrapper.OPCODE_PONG, payload)
 
             # This isn't *proper* handling of continuation frames, but given
             # that we only support binary frames, it is *probably* good enough.
@@ -5032,15 +5031,25 @@ class _WebsocketWrapper:
             self.connected = False
             return b''
 
+    def _send_control_frame(self, opcode: int, payload: bytearray) -> None:
+        # Control frames go through the same buffer as data frames, so they are written after
+        # a data frame that is only partly flushed, never inside it; like every frame a client
+        # sends they are masked (RFC 6455 section 5.3).
+        self._sendbuffer.extend(self._create_frame(opcode, bytearray(payload)))
+        # may raise BlockingIOError: the frame stays buffered and goes out with the next write
+        length = self._socket.send(self._sendbuffer)
+        self._sendbuffer = self._sendbuffer[length:]
+
     def _send_impl(self, data: bytes) -> int:
 
-        # if previous frame was sent successfully
-        if len(self._sendbuffer) == 0:
-            # create websocket frame
+        # if the previous data frame was sent successfully
+        if not self._data_pending:
+            # create websocket frame (behind a control frame that may still be buffered)
             frame = self._create_frame(
                 _WebsocketWrapper.OPCODE_BINARY, bytearray(data))
             self._sendbuffer.extend(frame)
             self._requested_size = len(data)
+            self._data_pending = True
 
         # try to write out as much as possible
         length = self._socket.send(self._sendbuffer)
@@ -5049,6 +5058,7 @@ class _WebsocketWrapper:
 
         if len(self._sendbuffer) == 0:
             # buffer sent out completely, return with payload's size
+            self._data_pending = False
             return self._requested_size
         else:
             # couldn't send whole data, request the same data again with 0 as sent length
